@@ -305,6 +305,54 @@ func verifControlReaderBad_OWN2(lines []string) []modeling.Mesh {
 	return out
 }
 
+// ---------------------------------------------------------------- material identity
+
+// the address of the range variable is kept (go.mod < 1.22: one variable per loop)
+func verifControlIdentBad_ORD2_MAT3(ms []modeling.Material) map[string]*modeling.Material {
+	table := make(map[string]*modeling.Material)
+	for _, m := range ms {
+		table[m.Name] = &m
+	}
+	return table
+}
+
+// key of one element, address of another
+func verifControlIdentBad_MAT3(ms []modeling.Material) map[string]*modeling.Material {
+	table := make(map[string]*modeling.Material)
+	for i, m := range ms {
+		table[m.Name] = &ms[len(ms)-1-i]
+	}
+	return table
+}
+
+// accepted: element address, per-iteration copy, index loop, pointer slice, object created for the name
+func verifControlIdentGood(ms []modeling.Material, ps []*modeling.Material, meshes []ObjMesh) map[string]*modeling.Material {
+	table := make(map[string]*modeling.Material)
+	for i, m := range ms {
+		table[m.Name] = &ms[i]
+	}
+	for _, m := range ms {
+		m := m
+		table[m.Name] = &m
+	}
+	for i := 0; i < len(ms); i++ {
+		table[ms[i].Name] = &ms[i]
+	}
+	for _, p := range ps {
+		table[p.Name] = p
+	}
+	for _, m := range ms {
+		name := m.Name
+		table[name] = &modeling.Material{Name: name}
+	}
+	for mi, mesh := range meshes {
+		for j, e := range mesh.Mesh.Materials() {
+			meshes[mi].Mesh.Materials()[j].Material = table[e.Material.Name]
+		}
+	}
+	return table
+}
+
 // ---------------------------------------------------------------- writer
 
 func verifCtlUsemtl(mat *modeling.Material, out *txt.Writer) {
